@@ -20,6 +20,7 @@ def section(ctx, env, trials):
     Q = m.Quantity
     CNF = conv.ConversionNotFound
     files = (conv.__file__, m.__file__)
+    every_line_limit = 160 if ctx.tier == "quick" else 600
     uid = [0]
 
     def fresh(tag):
@@ -84,7 +85,13 @@ def section(ctx, env, trials):
         if only is None:
             sched.random_schedules(make, None, files, check, rng, 1, set())
         else:
-            sched.explore(make, only, files, check, max_preempt=1, limit=80)
+            # the listed functions, plus every function of the conversions module that the first thread is seen to enter
+            # when it runs alone: helpers that were renamed, split or merged are still windows to stop in
+            conv_file = conv.__file__
+            entered = sched.discover(setup(random.Random(variant))[0][0], (conv_file,))
+            extra = {q for q in entered if q not in only and "<" not in q}
+            ctx.count("concurrent/functions_traced_beyond_the_listed_ones", len(extra))
+            sched.explore(make, set(only) | extra, files, check, max_preempt=1, limit=every_line_limit)
 
     def chain(dim):
         a, b, c = (m.Unit.define(dim, fresh("u"), fresh("s")) for _ in range(3))
